@@ -1041,6 +1041,7 @@ pub struct Env {
     pub replaying: bool,
     pub deadline: std::time::Instant,
     pub skipped: AtomicU64,
+    pub nontrivial: AtomicU64,
     next_sid: AtomicU64,
     pub thaws: AtomicU64,
     pub reused: AtomicU64,
@@ -1069,6 +1070,7 @@ impl Env {
             replaying: false,
             deadline: std::time::Instant::now() + Duration::from_secs(86_400),
             skipped: AtomicU64::new(0),
+            nontrivial: AtomicU64::new(0),
             next_sid: AtomicU64::new(1),
             thaws: AtomicU64::new(0),
             reused: AtomicU64::new(0),
@@ -1141,6 +1143,9 @@ impl Env {
                 class: "skipped:wall-cap".into(),
                 violations: vec![],
             };
+        }
+        if !st.model.stored.is_empty() {
+            self.nontrivial.fetch_add(1, Ordering::Relaxed);
         }
         block(async {
             let cached = CACHE.with(|c| c.borrow_mut().take());
@@ -1467,7 +1472,7 @@ every h in 0..=N+1. quick: N=5 L=3 I=2 D=2 depth 3. thorough: two searches, N=6 
 Every transition is executed on InMemoryStore and RedbStore (both behind EitherStore) and on the reference model; after every \
 rejected batch whose correction the model accepts, the corrected batch is applied to the same objects. state = distinct total \
 observation; transition = one execution of the real operation on both backends (counted by the engine; see `searches` for the \
-per-search counts)";
+per-search counts); (state, operation) pairs are distinct by construction; non-trivial = the operation was applied to a non-empty store";
 
 pub const ASSUMPTIONS: &[&str] = &[
     "header bytes, keys and CIDs are payload (random generator / VERIF_SEED); oracles use identities (chain, height) only; the fixture's parent relation is validated against the real verify_adjacent for every ordered pair at start-up",
@@ -1504,6 +1509,7 @@ pub fn run(id: &str, which: Which) -> ! {
     let mut rep = Report::new();
     rep.sample_cap = 8;
     let mut per_search: Vec<Value> = vec![];
+    let mut nontrivial = 0u64;
     let prof_on = std::env::var("LV_STORE_PROF").is_ok();
 
     for bd in searches {
@@ -1539,6 +1545,7 @@ pub fn run(id: &str, which: Which) -> ! {
         if let Some(m) = env.machinery.lock().unwrap().clone() {
             machinery_error(&ctx.id, &m);
         }
+        nontrivial += env.nontrivial.load(Ordering::Relaxed);
         let skipped = env.skipped.load(Ordering::Relaxed);
         if skipped > 0 {
             rep.cap_hit(&format!(
@@ -1575,6 +1582,7 @@ pub fn run(id: &str, which: Which) -> ! {
     }
     rep.extras.remove("bfs_unexpanded_frontier");
     rep.extra("searches", Value::Array(per_search));
+    rep.extra("distinct_nontrivial_by_construction", json!(nontrivial));
     rep.extra("oracle", Value::String(match which {
         Which::C19 => "C19: result kind + total observation of both backends equal the reference model; sampled within stored; pruned disjoint from stored",
         Which::C20 => "C20: every failing transition leaves the total observation of that backend unchanged; the corrected batch is then accepted whenever the model accepts it",
